@@ -206,6 +206,7 @@ impl Property for C16Prop {
                     (">>=", 1 << 62, 1, 62),
                     ("/=", 1 << 62, 2, 62),
                     ("**=", 3, 3, 40),
+                    ("**=", 3, 2, 60),
                     ("^=", 0, 0x55, 100_000),
                 ]);
                 let iters = (1 + tape.below(tier.of(300, 2000))).min(max_steps / threads).max(1);
@@ -250,6 +251,7 @@ impl Property for C16Prop {
             "mix" => check_mix(case, stats),
             "append" => check_append(case, stats),
             "cross" => check_cross(case, stats),
+            "isolated-code" => check_isolated_code(case, stats),
             "show" => check_show(case, stats),
             "shared-iterator" => check_shared_iterator(case, stats),
             _ => Verdict::Discard("unknown kind"),
@@ -344,6 +346,75 @@ fn check_cross(case: &Json, stats: &mut Stats) -> Verdict {
         }
     }
     stats.sample(2, || json!({"workload": case}));
+    Verdict::Pass
+}
+
+/// whole programs whose top-level function literals capture cells the program itself creates
+const ISOLATED_CODE: [&str; 6] = [
+    "total := mut 0; s := [1, 2, 3, 4]~ $ 0 (acc: int, x: int) -> int { total += x; return acc + x; }; (s, *total)",
+    "c := mut 0; inc := () -> int { c += 1; return *c; }; inc(); inc(); (*c, inc())",
+    "k := mut 0; a := [1, 2, 3]~ @ (x: int) -> int { k += x; return x * 2; } $]; (a, *k)",
+    "seen := mut [int] []; [3, 1, 2]~ ? (x: int) -> bool { seen += [x]; return x > 1; } $]; *seen",
+    "n := mut 0; f := (g: () -> ()) { g(); g(); }; f(() { n += 5; }); *n",
+    "m := mod { c := mut 1; bump := () -> int { c *= 3; return *c; }; }; m.bump(); (m.bump(), *m.c)",
+];
+
+/// One parsed program executed by T threads at once (and several times by each): every execution
+/// creates its own cells and closures, so each gives the result of a single sequential execution.
+fn check_isolated_code(case: &Json, stats: &mut Stats) -> Verdict {
+    let threads = case["threads"].as_u64().unwrap_or(8) as usize;
+    let reps = case["reps"].as_u64().unwrap_or(1) as usize;
+    let text = ISOLATED_CODE[case["which"].as_u64().unwrap_or(0) as usize % ISOLATED_CODE.len()];
+    run::default_budget();
+    let interp = run::interpreter(true);
+    let code = match run::parse_guarded(&interp, text) {
+        Ok(Ok(code)) => code,
+        Ok(Err(k)) => return fail("C16:setup", format!("`{text}` rejected: {k}")),
+        Err(o) => return fail("C16:setup", format!("`{text}`: {}", o.short())),
+    };
+    // what a fresh parse and a single execution give
+    let expected = match run::run_text(text, true) {
+        Outcome::Value(v) => canon::canon(&v),
+        o => return fail("C16:setup", format!("`{text}`: {}", o.short())),
+    };
+    for rep in 0..reps {
+        let barrier = Arc::new(Barrier::new(threads));
+        let results: Vec<Vec<Outcome>> = std::thread::scope(|scope| {
+            let handles: Vec<_> = (0..threads)
+                .map(|_| {
+                    let (barrier, code) = (barrier.clone(), &code);
+                    scope.spawn(move || {
+                        run::default_budget();
+                        barrier.wait();
+                        (0..3)
+                            .map(|_| {
+                                run::default_budget();
+                                run::exec_guarded(code)
+                            })
+                            .collect()
+                    })
+                })
+                .collect();
+            handles.into_iter().map(|h| h.join().expect("worker")).collect()
+        });
+        stats.evals((threads * 3) as u64);
+        stats.nontrivial(&format!("{case}#{rep}"));
+        stats.label("isolated-code: one parsed program executed by several threads");
+        for (t, outs) in results.iter().enumerate() {
+            for o in outs {
+                match o {
+                    Outcome::Value(v) if canon::canon(v) == expected => {}
+                    o => {
+                        return fail(
+                            "C16:isolated-code:result",
+                            format!("`{text}` parsed once and executed by {threads} threads: thread {t} got {}, a single execution gives {}", o.short(), expected.show()),
+                        );
+                    }
+                }
+            }
+        }
+    }
+    stats.sample(2, || json!({"workload": case, "program": text}));
     Verdict::Pass
 }
 
@@ -1026,7 +1097,7 @@ pub fn run(session: &Session) -> i32 {
     let mut cases = vec![];
     for (op, x0, k, iters) in [
         ("+=", 0i64, 1i64, 2000usize), ("-=", 0, 3, 1000), ("*=", 1, 3, 1000), ("<<=", 1, 1, 7), (">>=", 1 << 62, 1, 7),
-        ("/=", 1 << 62, 2, 7), ("**=", 3, 3, 5), ("^=", 0, 0x55, 1000),
+        ("/=", 1 << 62, 2, 7), ("**=", 3, 3, 5), ("**=", 3, 2, 7), ("^=", 0, 0x55, 1000),
     ] {
         cases.push(json!({"kind": "orbit", "op": op, "x0": x0, "k": k, "threads": 8, "iters": iters, "reps": session.tier.of(4, 20)}));
     }
@@ -1035,6 +1106,9 @@ pub fn run(session: &Session) -> i32 {
     }
     for (op, k) in MIX_OPS {
         cases.push(json!({"kind": "mix", "op": op, "k": k, "inc": 3, "ident": 3, "readers": 2, "iters": session.tier.of(1500, 10000), "reps": session.tier.of(2, 8)}));
+    }
+    for which in 0..ISOLATED_CODE.len() {
+        cases.push(json!({"kind": "isolated-code", "which": which, "threads": 8, "reps": session.tier.of(6, 40)}));
     }
     cases.push(json!({"kind": "show", "writers": 4, "readers": 4, "iters": session.tier.of(3000, 30000), "reps": session.tier.of(3, 10)}));
     cases.push(json!({"kind": "shared-iterator", "threads": 8, "n": session.tier.of(4000, 30000), "reps": session.tier.of(4, 20)}));
@@ -1072,7 +1146,7 @@ pub fn run(session: &Session) -> i32 {
         }
     }
     session.finish(
-        "workloads on real threads released by a barrier and repeated: (orbit) T threads x M identical updates `c op= k` through one shared function value for updates with an injective orbit (+= -= *= <<= >>= /= **= ^=): the multiset of values returned by the assignments must be exactly {f(x0)..f^(TM)(x0)} and the final content f^(TM)(x0); (bits) every single update owns one bit (|= &= ^=): each returned value shows the caller's own update and the final content shows all; (history) 3 threads x 1-3 operations over all 12 assignment operators incl. failing ones, brute-force linearizability of returned values + final content against the i128 model; (mix) incrementing threads + threads applying an identity update of each other operator family (/= 1, **= 1, <<= 0, >>= 0, %= MAX, *= 1, -= 0, |= 0, &= -1) + reading threads on one cell: no increment lost, every increment returns a distinct value, reads/identity updates see a non-decreasing value in range; (append) T threads x M `c += [k]` / `c += \"k,\"` / `c += 1.0` on one shared array, string, float or nested-array cell: the sizes returned by the assignments are exactly 1..TM, each once, and the final content holds every token exactly once; (cross) threads alternately updating each of two cells from the content of the other: every call returns a value within the expected mask, and the workers are watched - if no call completes for 40 s the executions are reported as deadlocked; (show) threads rendering a cell as text while others update it: every rendering has the sequential shape; (shared-iterator) T threads pulling from one array iterator over n elements are handed at most n elements, each from the array; (isolated) 16 threads executing the same Code objects (loops, closures, recursion, iterator helpers @ ? ~ $] $+ $* $|| $& \\ ? T) must each get the sequential result. Workload shapes are drawn from VERIF_SEED; interleavings are whatever the scheduler produces. Non-trivial = a repetition in which at least two threads' execution intervals overlapped; distinct by workload and repetition.",
+        "workloads on real threads released by a barrier and repeated: (orbit) T threads x M identical updates `c op= k` through one shared function value for updates with an injective orbit (+= -= *= <<= >>= /= **= ^=): the multiset of values returned by the assignments must be exactly {f(x0)..f^(TM)(x0)} and the final content f^(TM)(x0); (bits) every single update owns one bit (|= &= ^=): each returned value shows the caller's own update and the final content shows all; (history) 3 threads x 1-3 operations over all 12 assignment operators incl. failing ones, brute-force linearizability of returned values + final content against the i128 model; (mix) incrementing threads + threads applying an identity update of each other operator family (/= 1, **= 1, <<= 0, >>= 0, %= MAX, *= 1, -= 0, |= 0, &= -1) + reading threads on one cell: no increment lost, every increment returns a distinct value, reads/identity updates see a non-decreasing value in range; (append) T threads x M `c += [k]` / `c += \"k,\"` / `c += 1.0` on one shared array, string, float or nested-array cell: the sizes returned by the assignments are exactly 1..TM, each once, and the final content holds every token exactly once; (cross) threads alternately updating each of two cells from the content of the other: every call returns a value within the expected mask, and the workers are watched - if no call completes for 40 s the executions are reported as deadlocked; (show) threads rendering a cell as text while others update it: every rendering has the sequential shape; (shared-iterator) T threads pulling from one array iterator over n elements are handed at most n elements, each from the array; (isolated-code) six whole programs whose top-level function literals capture cells the program creates, parsed once and executed three times by each of 8 threads: every execution gives the single-execution result; (isolated) 16 threads executing the same Code objects (loops, closures, recursion, iterator helpers @ ? ~ $] $+ $* $|| $& \\ ? T) must each get the sequential result. Workload shapes are drawn from VERIF_SEED; interleavings are whatever the scheduler produces. Non-trivial = a repetition in which at least two threads' execution intervals overlapped; distinct by workload and repetition.",
         false,
         &["schedules are sampled, not enumerated: a race that needs one specific interleaving can be missed; a deadlock among the workers of the cross workload is reported as a violation after 40 s without a completed call (calls take microseconds); any other hang ends in the watchdog (exit 2)",
           "overlap is measured by wall-clock intervals of the worker threads"],
